@@ -544,3 +544,8 @@ func (ex *Exec) cborDecodeInto(b *SliceVal, target Value) Value {
 		return nilErr()
 	}
 }
+
+func sha256Sum(b []byte) []byte {
+	a := sha256.Sum256(b)
+	return a[:]
+}
